@@ -257,15 +257,21 @@ func (a *FnA) desc0(v ssa.Value) string {
 			for _, in := range b.Instrs {
 				if al, ok := in.(*ssa.Alloc); ok {
 					if al == x {
-						return fmt.Sprintf("alloc#%d(%s)", n, x.Comment)
+						return fmt.Sprintf("alloc(%s)#%d", x.Comment, n)
 					}
-					n++
+					if al.Comment == x.Comment {
+						n++
+					}
 				}
 			}
 		}
-		for i, l := range a.fn.Locals {
+		n = 0
+		for _, l := range a.fn.Locals {
 			if l == x {
-				return fmt.Sprintf("local#%d(%s)", i, x.Comment)
+				return fmt.Sprintf("local(%s)#%d", x.Comment, n)
+			}
+			if l.Comment == x.Comment {
+				n++
 			}
 		}
 		return "alloc:" + x.Name()
@@ -312,7 +318,11 @@ func (a *FnA) desc0(v ssa.Value) string {
 		for _, ar := range x.Call.Args {
 			args = append(args, a.Desc(ar))
 		}
-		return calleeName(&x.Call) + "(" + strings.Join(args, ", ") + ")"
+		d := calleeName(&x.Call) + "(" + strings.Join(args, ", ") + ")"
+		if !pureCall(&x.Call) {
+			d += "@" + x.Name() // distinct impure calls are distinct values
+		}
+		return d
 	case *ssa.Extract:
 		return a.Desc(x.Tuple) + "#" + strconv.Itoa(x.Index)
 	case *ssa.TypeAssert:
@@ -342,6 +352,34 @@ func (a *FnA) desc0(v ssa.Value) string {
 }
 
 func shortQual(p *types.Package) string { return p.Name() }
+
+// pureCall: the call's value is a function of its arguments only (so equal descriptors mean equal
+// values).
+func pureCall(cc *ssa.CallCommon) bool {
+	if cc.IsInvoke() {
+		return false
+	}
+	if b, ok := cc.Value.(*ssa.Builtin); ok {
+		switch b.Name() {
+		case "len", "cap", "min", "max", "real", "imag", "complex":
+			return true
+		}
+		return false
+	}
+	sc := cc.StaticCallee()
+	if sc == nil {
+		return false
+	}
+	n := sc.String()
+	pk := ""
+	if sc.Pkg != nil {
+		pk = sc.Pkg.Pkg.Path()
+	}
+	if purePkgs[pk] || n == "fmt.Sprintf" || n == "fmt.Sprint" {
+		return true
+	}
+	return false
+}
 
 // ---------------------------------------------------------------------------------------------
 // Facts
@@ -523,6 +561,31 @@ func (a *FnA) FactsAt(b *ssa.BasicBlock) Facts {
 }
 
 func (a *FnA) FactsOf(in ssa.Instruction) Facts { return a.FactsAt(in.Block()) }
+
+// FactsOnEdge: facts known when control passes from pred to succ (facts at pred plus the literals
+// the edge itself asserts).
+func (a *FnA) FactsOnEdge(pred, succ *ssa.BasicBlock) Facts {
+	f := Facts{}
+	for k, v := range a.FactsAt(pred) {
+		f[k] = v
+	}
+	n := 0
+	idx := -1
+	for i, s := range pred.Succs {
+		if s == succ {
+			n++
+			idx = i
+		}
+	}
+	if n == 1 {
+		for _, l := range a.edgeLits(pred, idx) {
+			if _, dup := f[l.Atom]; !dup {
+				f[l.Atom] = l.Pol
+			}
+		}
+	}
+	return f
+}
 
 // ---------------------------------------------------------------------------------------------
 // Cut reachability (P4)
